@@ -577,6 +577,150 @@ func main() {
 		}
 	})
 
+	// collections member by member: what the generic entry points do with a member depends on its kind alone (a bare
+	// point is kept iff the closed box holds it, a box member is intersected, multi-kinds unwrap when one part
+	// remains, nil members and members of which nothing remains are dropped), wherever it stands in the collection
+	// and whatever its neighbours are
+	memberMenu := []func() orb.Geometry{
+		func() orb.Geometry { return nil },
+		func() orb.Geometry { return orb.Point{2, 2} },
+		func() orb.Geometry { return orb.Point{0, 0} },
+		func() orb.Geometry { return orb.Point{4, 3} },
+		func() orb.Geometry { return orb.Point{9, 9} },
+		func() orb.Geometry { return orb.Point{-1, 2} },
+		func() orb.Geometry { return orb.MultiPoint{{0, 0}, {2.25, 2.25}} },
+		func() orb.Geometry { return orb.MultiPoint{{9, 9}} },
+		func() orb.Geometry { return orb.LineString{{0, 0}, {4, 4}} },
+		func() orb.Geometry { return orb.LineString{{9, 9}, {9, 8}} },
+		func() orb.Geometry { return orb.Ring{{1, 1}, {2, 1}, {2, 2}, {1, 2}, {1, 1}} },
+		func() orb.Geometry { return orb.Polygon{{{-1, -1}, {5, -1}, {5, 5}, {-1, 5}, {-1, -1}}} },
+		func() orb.Geometry { return orb.Bound{Min: orb.Point{1, 1}, Max: orb.Point{3, 3}} },
+		func() orb.Geometry { return orb.Bound{Min: orb.Point{8, 8}, Max: orb.Point{9, 9}} },
+		func() orb.Geometry { return orb.MultiPoint{}.Bound() },
+		func() orb.Geometry { return orb.Collection{orb.Point{9, 9}} },
+		func() orb.Geometry { return orb.Collection{orb.Point{2, 2}, orb.Point{-5, -5}} },
+		func() orb.Geometry { return orb.Collection{orb.Point{-5, -5}, orb.Point{7, 7}} },
+	}
+	var refMember func(box orb.Bound, g orb.Geometry) orb.Geometry
+	refMember = func(box orb.Bound, g orb.Geometry) orb.Geometry {
+		in := func(p orb.Point) bool { return p[0] >= box.Min[0] && p[0] <= box.Max[0] && p[1] >= box.Min[1] && p[1] <= box.Max[1] }
+		switch v := g.(type) {
+		case nil:
+			return nil
+		case orb.Point:
+			if in(v) {
+				return v
+			}
+			return nil
+		case orb.MultiPoint:
+			var out orb.MultiPoint
+			for _, p := range v {
+				if in(p) {
+					out = append(out, p)
+				}
+			}
+			switch len(out) {
+			case 0:
+				return nil
+			case 1:
+				return out[0]
+			}
+			return out
+		case orb.LineString:
+			mls := clip.LineString(box, v.Clone())
+			switch len(mls) {
+			case 0:
+				return nil
+			case 1:
+				return mls[0]
+			}
+			return mls
+		case orb.Ring:
+			if r := clip.Ring(box, v.Clone()); r != nil {
+				return r
+			}
+			return nil
+		case orb.Polygon:
+			if p := clip.Polygon(box, v.Clone()); p != nil {
+				return p
+			}
+			return nil
+		case orb.Bound:
+			x := orb.Bound{Min: orb.Point{math.Max(box.Min[0], v.Min[0]), math.Max(box.Min[1], v.Min[1])}, Max: orb.Point{math.Min(box.Max[0], v.Max[0]), math.Min(box.Max[1], v.Max[1])}}
+			if x.Min[0] > x.Max[0] || x.Min[1] > x.Max[1] {
+				return nil
+			}
+			return x
+		case orb.Collection:
+			var out orb.Collection
+			for _, m := range v {
+				if x := refMember(box, m); x != nil {
+					out = append(out, x)
+				}
+			}
+			switch len(out) {
+			case 0:
+				return nil
+			case 1:
+				return out[0]
+			}
+			return out
+		}
+		panic("unexpected member kind")
+	}
+	r.Explore("collection-members", fmt.Sprintf("12 boxes x every collection of 1..3 members over %d shapes (nil, bare points inside / on the edge / outside, multi-points, lines, a ring, a polygon around everything, boxes overlapping / away / empty, nested collections whose members all miss or partly miss): clip.Collection keeps exactly what remains of each member, in order; clip.Geometry returns nil / the single survivor / the collection; mvt Layer.Clip keeps or drops the feature accordingly", len(memberMenu)), mc.Opts{MaxDev: -1, Split: 2}, func(c *mc.Ctx) {
+		box := boxes[c.Choose(12)]
+		n := 1 + c.Choose(3)
+		idx := make([]int, n)
+		for i := range idx {
+			idx[i] = c.Choose(len(memberMenu))
+		}
+		mk := func() orb.Collection {
+			col := make(orb.Collection, n)
+			for i, k := range idx {
+				col[i] = memberMenu[k]()
+			}
+			return col
+		}
+		var want orb.Collection
+		for _, m := range mk() {
+			if x := refMember(box, m); x != nil {
+				want = append(want, x)
+			}
+		}
+		in := mk()
+		if got := clip.Collection(box, mk()); !refgeom.Equal(got, want) || (len(want) == 0 && got != nil) {
+			c.Failf("collection", "clip.Collection(%v, %#v) = %#v, member by member %#v", box, in, got, want)
+		}
+		var wantG orb.Geometry
+		switch len(want) {
+		case 0:
+		case 1:
+			wantG = want[0]
+		default:
+			wantG = want
+		}
+		if got := clip.Geometry(box, mk()); !refgeom.Equal(got, wantG) {
+			c.Failf("generic", "clip.Geometry(%v, %#v) = %#v, member by member %#v", box, in, got, wantG)
+		}
+		// one level down: the same collection as the only member of another one
+		if got := clip.Geometry(box, orb.Collection{mk()}); !refgeom.Equal(got, wantG) {
+			c.Failf("generic", "clip.Geometry(%v, Collection{%#v}) = %#v, member by member %#v", box, in, got, wantG)
+		}
+		layer := &mvt.Layer{Name: "l", Features: []*geojson.Feature{geojson.NewFeature(orb.Point{box.Min[0], box.Min[1]}), geojson.NewFeature(mk()), geojson.NewFeature(orb.Point{box.Max[0], box.Max[1]})}}
+		layer.Clip(box)
+		if wantG == nil {
+			if len(layer.Features) != 2 {
+				c.Failf("mvt-layer-clip", "Layer.Clip(%v) keeps %d of 3 features; of the middle one, %#v, nothing remains", box, len(layer.Features), in)
+			}
+		} else if len(layer.Features) != 3 || !refgeom.Equal(layer.Features[1].Geometry, wantG) {
+			c.Failf("mvt-layer-clip", "Layer.Clip(%v) of a feature holding %#v: %d features kept, geometry %#v, want %#v", box, in, len(layer.Features), layer.Features[min(1, len(layer.Features)-1)].Geometry, wantG)
+		}
+		if len(want) > 0 && len(want) < n {
+			c.NonTrivial()
+		}
+	})
+
 	// combs: a size-parameterised family. The clipped ring grows by one or two vertices per tooth that leaves
 	// the box, so the number of teeth drives the intermediate vertex lists far past the input length.
 	maxTeeth := ev.Pick(r, 14, 40)
